@@ -111,18 +111,18 @@ def expected_outline(headings, top):
     return root
 
 
-@lemma('O2.outline', 'C19', quick=[{'k': k, 'omit': o} for k in (1, 2, 3) for o in (False, True)],
-       thorough=[{'k': k, 'omit': o} for k in (1, 2, 3, 4) for o in (False, True)], timeout=600, per_path=90,
+@lemma('O2.outline', 'C19', quick=[{'k': k, 'omit': o} for k in (1, 2, 3, 4) for o in (False, True)],
+       thorough=[{'k': k, 'omit': o} for k in (1, 2, 3, 4, 5) for o in (False, True)], timeout=600, per_path=90,
        covers=['contrib/toc_renderer.py:TocRenderer.toc', 'block_token.py:tokenize', 'block_token.py:List.read', 'block_token.py:ListItem.read'],
        note='k headings whose levels form an outline (pre-condition), levels 1..6; the real toc property re-tokenizes the indented list lines')
-def o2_outline(l1: int, l2: int, l3: int, l4: int) -> bool:
+def o2_outline(l1: int, l2: int, l3: int, l4: int, l5: int) -> bool:
     """
-    pre: outline([l1, l2, l3, l4][:P('k')], 2 if P('omit') else 1) and all(l <= 6 for l in [l1, l2, l3, l4][:P('k')])
+    pre: outline([l1, l2, l3, l4, l5][:P('k')], 2 if P('omit') else 1) and all(l <= 6 for l in [l1, l2, l3, l4, l5][:P('k')])
     post: _
     """
     k = P('k')
     omit = P('omit')
-    levels = [l1, l2, l3, l4][:k]
+    levels = [l1, l2, l3, l4, l5][:k]
     words = ['w%d' % i for i in range(k)]
     try:
         r = _renderer(6, omit, [])
